@@ -287,6 +287,16 @@ func (c *celValidator) convertOperator(function string, args []*exprpb.Expr, fie
 		return c.convertInOperator(args, fieldName)
 	}
 
+	// Unary operators: logical negation and arithmetic negation.
+	if len(args) == 1 {
+		switch function {
+		case "!_":
+			return fmt.Sprintf("!(%s)", c.convertASTToGo(args[0], fieldName))
+		case "-_":
+			return fmt.Sprintf("-(%s)", c.convertASTToGo(args[0], fieldName))
+		}
+	}
+
 	if len(args) != 2 {
 		return ""
 	}
@@ -418,6 +428,8 @@ func (c *celValidator) convertArithmeticOperator(function, left, right string) s
 		return fmt.Sprintf("%s * %s", left, right)
 	case "_/_":
 		return fmt.Sprintf("%s / %s", left, right)
+	case "_%_":
+		return fmt.Sprintf("%s %% %s", left, right)
 	default:
 		return ""
 	}
